@@ -104,6 +104,12 @@ def cases(tier: str, seed: int) -> List[Dict[str, Any]]:
     kinds = ["float", "t32", "t64"]
     for e, f, k, lr, allow in itertools.product(entry, forms, kinds, LRS, [False, True]):
         out.append({"kind": "B", "entry": e, "form": f, "lrkind": k, "lr": lr, "allow": allow})
+        if not e.startswith("raw"):
+            # the optimizer classes take the learning rate as their second POSITIONAL parameter too (as torch's do),
+            # and default it to 1e-3 when it is not given at all
+            out.append({"kind": "B", "entry": e, "form": f, "lrkind": k, "lr": lr, "allow": allow, "lrpass": "positional"})
+            if k == "float" and lr == LRS[0]:
+                out.append({"kind": "B", "entry": e, "form": f, "lrkind": k, "lr": 1e-3, "allow": allow, "lrpass": "default"})
     for e in entry:
         out.append({"kind": "E", "entry": e})
     return out
@@ -325,8 +331,11 @@ def run_case(case: Dict[str, Any]) -> Dict[str, Any]:
         params = [{"params": ps[:4], "lr": own}, {"params": ps[4:]}]
         src = [own] * 4 + [lr] * (len(ps) - 4)
     ident = f"B|{e}|form={form}|lr={kind}"
+    lrpass = case.get("lrpass", "keyword")
+    if lrpass != "keyword":
+        ident += f"|lr_passed={lrpass}"
     try:
-        groups = _call(e, params, glob, allow)
+        groups = _call(e, params, glob, allow, lrpass)
     except Exception as ex:  # noqa
         from mc.core import exception_violation
 
@@ -355,8 +364,16 @@ def _rule_of(entry: str) -> str:
             "SGD_none": "sgd_none", "SGD_out": "sgd_out"}[entry]
 
 
-def _call(entry: str, params: Any, lr: Any, allow: bool) -> List[Dict[str, Any]]:
+def _call(entry: str, params: Any, lr: Any, allow: bool, lrpass: str = "keyword") -> List[Dict[str, Any]]:
     from unit_scaling import optim
+
+    if lrpass != "keyword":
+        cls = {"Adam": optim.Adam, "AdamW": optim.AdamW, "SGD_none": optim.SGD, "SGD_out": optim.SGD}[entry]
+        kw: Dict[str, Any] = {"allow_non_unit_scaling_params": allow}
+        if entry == "SGD_out":
+            kw["readout_constraint"] = "to_output_scale"
+        opt = cls(params, lr, **kw) if lrpass == "positional" else cls(params, **kw)
+        return list(opt.param_groups)
 
     if entry.startswith("raw"):
         return list(
